@@ -68,7 +68,7 @@ def run(ctx):
         cases = [m.group(1)]
     else:
         cases = [open(c).read().strip() for c in corpus]
-        n = 6000 if tr == 'thorough' else 600
+        n = 20000 if tr == 'thorough' else 1500
         cases += [gen(rng, f'r{base_seed}n{i}') for i in range(n)]
     res = run_e1(hbin, 'stopref', cases, jobs=8, tag=prop + 'ref')
     kinds = {'pass': 0, 'monitor': 0, 'tie': 0}
